@@ -400,6 +400,12 @@ func SetupQueryParallelism(firstAggHasStats bool, chainFactory func() []*DataPro
 		switch firstDpChain[mergeIndex].processor.(type) {
 		case *statsProcessor, *timechartProcessor: // TODO: should top/rare be included?
 			settings = mergeSettings{mergingStats: true}
+		case *sortProcessor:
+			// The partial results of a sort have to be merged in the order and with the limit
+			// of that sort, whatever order the commands after it need.
+			sorter := firstDpChain[mergeIndex].processor.(*sortProcessor)
+			settings = mergeSettings{mergingStats: false, less: sorter.lessDirectRead}
+			settings.limit.Set(sorter.GetLimit())
 		default:
 			settings = mergeSettings{
 				mergingStats: false,
